@@ -3,6 +3,7 @@ extern crate gluon_vm;
 
 mod common;
 mod conc;
+mod heap;
 mod host;
 
 use common::*;
@@ -31,6 +32,51 @@ fn cmd_run(args: &[String]) {
     }
 }
 
+fn cmd_dropvm() {
+    use gluon::ThreadExt;
+    gluon::vm::verif::set_quarantine(true);
+    let vm = new_vm(&Settings::default());
+    let (v, _) = vm.run_expr::<AnyValue>("x", "{ a = 1, b = \"x\" }").unwrap();
+    let addr = v.get_variant().verif_ptr_info().unwrap().0;
+    drop(v);
+    if std::env::var("P1").is_ok() {
+        vm.load_script("drv", "{ mk2 = \\a b -> { l = a, r = b } }").unwrap();
+    }
+    if std::env::var("P2").is_ok() {
+        let f: AnyValue = vm.get_global("drv").unwrap();
+        drop(f);
+    }
+    if std::env::var("P3").is_ok() {
+        let z = vm.run_expr::<AnyValue>("z", "0").unwrap().0;
+        let mut f: gluon::vm::api::Function<gluon::RootedThread, fn(AnyValue, AnyValue) -> AnyValue> = vm.get_global("drv.mk2").unwrap();
+        let r = f.call(z.clone(), z.clone()).unwrap();
+        drop(r);
+    }
+    if let Ok(src) = std::env::var("PLOAD") {
+        if std::env::var("PIO").is_ok() { vm.get_database_mut().run_io(true); }
+        let r = vm.load_script("pload", &src);
+        println!("pload ok={}", r.is_ok());
+    }
+    if let Ok(src) = std::env::var("PSRC") {
+        if std::env::var("PIO").is_ok() { vm.get_database_mut().run_io(true); }
+        let r = vm.run_expr::<AnyValue>("psrc", &src);
+        println!("psrc ok={}", r.is_ok());
+        drop(r);
+    }
+    if std::env::var("P4").is_ok() {
+        let child = vm.new_thread().unwrap();
+        drop(child);
+    }
+    println!("before drop freed={}", unsafe { gluon::vm::gc::verif_freed_at(addr) });
+    drop(vm);
+    println!("after drop freed={}", unsafe { gluon::vm::gc::verif_freed_at(addr) });
+    let vm = gluon::vm::thread::RootedThread::new();
+    let child = vm.new_thread().unwrap();
+    drop(child);
+    drop(vm);
+    println!("bare vm dropped");
+}
+
 fn main() {
     let args: Vec<String> = std::env::args().collect();
     if args.len() < 2 {
@@ -39,7 +85,10 @@ fn main() {
     let rest = &args[2..];
     match args[1].as_str() {
         "run" => cmd_run(rest),
+        "dropvm" => cmd_dropvm(),
+        "dropctx" => heap::probe_drop(),
         "conc" => conc::cmd(rest),
+        "heap" => heap::cmd(rest),
         _ => usage(),
     }
 }
